@@ -11,7 +11,7 @@ import (
 func init() {
 	reg("C40", Meta{
 		Technique:   "targeted SSA lint (element deletion inside an ascending index loop without index compensation) + must-follow wiring rule for the unsubscribe path",
-		Explanation: "C40 (subscribers), structural clauses: (L1) in pkg/subscribe no loop `for j:=..; j<len(s); j++` deletes s[j] by `s = append(s[:j], s[j+1:]...)` and then advances j without compensating (j--), breaking or returning — otherwise the element that slid into position j is skipped and a duplicate subscription survives its unsubscribe; (F1) Subscribe sends the subscription on subInfoChan and starts a goroutine that waits on the notifier's Err() and then sends the same subscription on unsubInfoChan; (F2) process selects on both channels. Not decided: delivery order of messages, and the race between the subscribe and unsubscribe channels.",
+		Explanation: "C40 (subscribers), structural clauses: (L1) in pkg/subscribe no loop `for j:=..; j<len(s); j++` deletes s[j] by `s = append(s[:j], s[j+1:]...)` and then advances j without compensating (j--), breaking or returning — otherwise the element that slid into position j is skipped and a duplicate subscription survives its unsubscribe; (F1) Subscribe sends the subscription on subInfoChan and starts a goroutine that waits on the notifier's Err() and then sends the same subscription on unsubInfoChan; (F2) process selects on both channels; (W1) copy-on-write: no element store, append onto a truncated re-slice, or copy() targets a subscriber slice that was loaded from keyToNotifier (publishers range over those slices without a lock); (F3) in Publish and PublishArray every element taken from the loaded subscriber list reaches its Notify call before the loop takes the next one or returns. Not decided: delivery order of messages, and the race between the subscribe and unsubscribe channels.",
 	}, c40)
 }
 
@@ -225,6 +225,7 @@ func c40(r *core.Run) {
 	r.Eval(core.EdgeCount(proc))
 	r.Check("C40.F2", core.Key("C40.F2", proc, "select on both channels"), proc.Pos(), both,
 		"the processing loop serves subscriptions and unsubscriptions", "process no longer receives from both subInfoChan and unsubInfoChan")
+	c40more(r)
 }
 
 // sameCapturedCell: inside closure cl the value v is a load of a free variable bound (by
